@@ -24,7 +24,26 @@ fn main() {
     // subject is reported as what it is instead of killing the reporter.
     if std::env::var_os("PGMC_CHILD").is_none() && std::env::var_os("PGMC_NO_FORK").is_none() {
         let exe = std::env::current_exe().expect("current_exe");
-        let status = std::process::Command::new(exe).args(&args[1..]).env("PGMC_CHILD", "1").status().expect("spawn child");
+        let mut child = std::process::Command::new(exe).args(&args[1..]).env("PGMC_CHILD", "1").spawn().expect("spawn child");
+        // hard stop: the engines cap themselves (50 s quick / 14 min thorough); a child that is still
+        // running long after that is hung (e.g. a subject loop that does not terminate)
+        let thorough = args.iter().any(|a| a == "thorough") || std::env::var("VERIF_TIER").map(|v| v == "thorough").unwrap_or(false);
+        let cap = std::env::var("PGMC_CAP_S").ok().and_then(|s| s.parse::<u64>().ok()).unwrap_or(if thorough { 14 * 60 } else { 50 });
+        let deadline = std::time::Instant::now() + std::time::Duration::from_secs(cap * 2 + 120);
+        let status = loop {
+            match child.try_wait().expect("wait") {
+                Some(st) => break st,
+                None => {
+                    if std::time::Instant::now() > deadline {
+                        let _ = child.kill();
+                        let _ = child.wait();
+                        eprintln!("MACHINERY-ERROR: the checker did not finish within {} s and was killed (a subject call that does not terminate?); no verdict", cap * 2 + 120);
+                        std::process::exit(2);
+                    }
+                    std::thread::sleep(std::time::Duration::from_millis(50));
+                }
+            }
+        };
         match status.code() {
             Some(c) => std::process::exit(c),
             None => {
